@@ -356,7 +356,7 @@ def check_C17(A, R, tier):
     R.info["transition_pairs"] = npairs
     # R17.4 set <-> state pairing ---------------------------------------------------------------
     pairing(A, R, "R17.4", C["Ready"], ("self", ready_f), "ready")
-    pairing(A, R, "R17.4c", C["CleanupOffered"], None, "cleanup", exclude=("self", ready_f))
+    pairing(A, R, "R17.4c", C["CleanupOffered"], None, "cleanup", exclude=("self", ready_f), field=cleanup_f)
     # R17.5 derived reports ------------------------------------------------------------------------
     cls = ["Ready", "Running", "Finished"]
     for i in range(len(cls)):
@@ -486,9 +486,56 @@ def run_roles(run, sym):
     return frozenset(cache.get(sym, ()))
 
 
-def pairing(A, R, rule, cls, target, what, exclude=None):
+def abort_entry(A):
+    """(API function that queues the abort kind, its joined run, block of its call into signal processing) -- by behaviour"""
+    import rules_more
+    K = rules_more.kinds(A)
+    ab = A.evaluator_fn("abort_remaining")
+    r = A.joined_run(ab)
+    calls = [v for v in r.by_kind("opaque_call") if v["fn"] == ab.name]
+    return ab, r, (calls[0]["bb"] if len(calls) == 1 else None)
+
+
+def after_abort_processing(A, v):
+    """fact `v` lies in the abort entry point behind the successful return of the signal processing it starts: at that point
+    every job is finished (this is what R10.1 establishes: every unfinished job is sent the abort signal, whose handler
+    finishes it without an error exit)"""
+    ab, r, cb = abort_entry(A)
+    if cb is None or v.get("fn") != ab.name or v.get("stack"):
+        return False
+    return cb != v["bb"] and ab.dominates(cb, v["bb"])
+
+
+def bulk_ops(run, field):
+    """operations that change a whole set field of the evaluator at once (clear, assignment, extend, unmodelled &mut use)"""
+    out = [v for v in run.by_kind("store_self") if v["proj"][:1] == (("f", field),)]
+    out += [v for v in run.by_kind("extend") if v["target"] == ("self", field)]
+    return out
+
+
+def deferred_clear(A, field):
+    """the abort entry point empties the set `field` on every regular path behind its signal processing"""
+    ab, r, cb = abort_entry(A)
+    if cb is None:
+        return False
+    cl = [v for v in bulk_ops(r, field) if v.get("call") == "clear/sort" and v["fn"] == ab.name and not v.get("stack") and after_abort_processing(A, v)]
+    if not cl:
+        return False
+    import rules_more
+    errs = rules_more.error_exit_blocks(A, ab) | rules_more.residual_blocks(ab)
+    reach = ab.reachable(cb, set(v["bb"] for v in cl) | errs)
+    return not (set(rules_more.returns_of(ab)) & reach)
+
+
+def pairing(A, R, rule, cls, target, what, exclude=None, field=None):
     """typestate pairing between a state class and a HashSet<String> of the evaluator"""
     H = A.handler_runs()
+    import rules_more
+    Kp = rules_more.kinds(A)
+    Cp = A.classes()
+    if field is None and target is not None:
+        field = target[1]
+    deferred = field is not None and not (cls & Cp["Finished"]) and deferred_clear(A, field)
     runs = [("%s handler/%s" % (A.kname(k), A.sname(s)), run) for (k, s), run in H.items()]
     for name in EVENTS:
         for s, run in A.event_runs(name).items():
@@ -526,6 +573,8 @@ def pairing(A, R, rule, cls, target, what, exclude=None):
             if froms_in and leaves:
                 n_leave += 1
                 ok = any(v["op"] == "remove" and elem_is_key(v["elem"], w["key"]) and connected(A, w, v) for v in ops)
+                if not ok and deferred and label.startswith(A.kname(Kp["abort"]) + " handler"):
+                    ok = True    # the abort entry point empties the set before it returns; nothing is observable in between
                 R.ob(rule, "%s | %s | leaving the %s class removes the id from the %s set" % (short(w["fn"]), label.split("/")[0], what, what),
                      ok, detail="state write %s -> %s has no matching remove (partition %s)" % (A.snames(froms_in), A.snames(leaves), label),
                      site=A.site(w))
@@ -546,6 +595,19 @@ def pairing(A, R, rule, cls, target, what, exclude=None):
                 ok = ok or (at is not None and not (at & cls))
                 R.ob(rule, "%s | %s | an id is removed from the %s set only when the job leaves (or is outside) the class" % (short(v["fn"]), label.split("/")[0], what),
                      ok, detail="remove although the job stays in the class (partition %s)" % label, site=A.site(v))
+    # operations on the whole set: only where no job can be in the class
+    if field is not None:
+        seenb = set()
+        for (label, run) in runs:
+            for v in bulk_ops(run, field):
+                kb = (v["fn"], v["bb"])
+                if kb in seenb:
+                    continue
+                seenb.add(kb)
+                ok = after_abort_processing(A, v) and not (cls & Cp["Finished"])
+                R.ob(rule, "%s | the %s set is changed as a whole (%s) only where no job can be in the %s class"
+                     % (short(v["fn"]), what, v.get("call") or v.get("kind") or "store/extend", what), ok,
+                     detail="jobs in the %s class would silently drop out of (or appear in) the reported set" % what, site=A.site(v))
     R.floor(rule, "writes entering the %s class" % what, n_enter)
     R.floor(rule, "writes leaving the %s class" % what, n_leave)
     R.floor(rule, "operations on the %s set" % what, n_ops, 2)
